@@ -36,6 +36,9 @@ Definition run_state (lc : Z) (dir : option Z) (brev : list Z) : Prop :=
                 lc = a + Z.of_nat (k - 1) * d /\
                 match dir with None => k = 1%nat | Some d' => d' = d end.
 
+Lemma range_list_1 a d : range_list a d 1 = [a].
+Proof. unfold range_list. cbn [seq map]. f_equal. lia. Qed.
+
 Lemma contiguous_go_dir_runs rest : forall lb lc dir brev, run_state lc dir brev ->
   Forall (fun p => is_run (snd p)) (contiguous_go_dir lb lc dir brev rest).
 Proof.
@@ -56,19 +59,21 @@ Proof.
         subst k. cbn in Elc. assert (lc = a) by lia. subst a.
         rewrite range_list_S in Er. cbn in Er.
         exists lc, (col - lc), 2%nat. split; [lia|]. split; [lia|]. split.
-        -- cbn [rev]. rewrite Er. unfold range_list. cbn. f_equal; [lia|]. f_equal. lia.
-        -- split; [cbn; lia|reflexivity].
+        -- cbn [rev]. rewrite Er.
+           change (range_list lc (col - lc) 2) with [lc + Z.of_nat 0 * (col - lc); lc + Z.of_nat 1 * (col - lc)].
+           cbn [app]. f_equal; [lia|f_equal; lia].
+        -- split; [lia|reflexivity].
     + constructor.
       * cbn [snd]. exists a, d, k. repeat split; assumption.
-      * apply IH. exists col, 1, 1%nat. split; [left; reflexivity|]. split; [lia|]. split; [reflexivity|].
-        split; [cbn; lia|reflexivity].
+      * apply IH. exists col, 1, 1%nat. split; [left; reflexivity|]. split; [lia|]. split; [symmetry; apply range_list_1|].
+        split; [lia|reflexivity].
 Qed.
 
 Lemma contiguous_bundles_dir_runs pairs : Forall (fun p => is_run (snd p)) (contiguous_bundles_dir pairs).
 Proof.
   destruct pairs as [|[bi col] rest]; [constructor|].
   unfold contiguous_bundles_dir. apply contiguous_go_dir_runs.
-  exists col, 1, 1%nat. split; [left; reflexivity|]. split; [lia|]. split; [reflexivity|]. split; [cbn; lia|reflexivity].
+  exists col, 1, 1%nat. split; [left; reflexivity|]. split; [lia|]. split; [symmetry; apply range_list_1|]. split; [lia|reflexivity].
 Qed.
 
 Lemma chain_range a d k : (d = 1 \/ d = -1) -> chain (range_list a d k).
